@@ -306,6 +306,8 @@ def run_case(case, name):
 
     def issue_top(c):
         """a command issued by the main thread; the moment it returns is marked in the log"""
+        with lock:
+            rec["log"].append(["call", c])
         t1 = time.time()
         r = issue(c)
         with lock:
